@@ -38,11 +38,16 @@ Inductive hop :=
 | HSeal (s : state) (obs : option bytes)         (* Config.EncryptTicket: ticket, or None for an error *)
 | HOpen (t : bytes) (obs : option bytes).        (* Config.DecryptTicket: Bytes() of the state, or None for nil *)
 
+(* an operation on member i of a family of Configs, or cloning member i *)
+Inductive fop := FOn (i : N) (op : hop) | FClone (i : N).
+
 Inductive case :=
 | CBytes (s : state) (obs : option bytes)                          (* SessionState.Bytes *)
 | CParse (good : list bytes) (data : bytes) (obs : option (option bytes))   (* ParseSessionState: None = error; Some = Bytes() of the result *)
 | CKey (b sha : bytes) (aes hm : bytes)                            (* TicketKeyFromBytes *)
-| CHist (sh : tab1) (hm : tabh) (ks : tab2) (good : list bytes) (rnd : bytes) (t0 : Z) (ops : list hop).
+| CHist (sh : tab1) (hm : tabh) (ks : tab2) (good : list bytes) (rnd : bytes) (t0 : Z) (ops : list hop)
+| CFam (sh : tab1) (hm : tabh) (ks : tab2) (good : list bytes) (rnd : bytes) (t0 : Z) (ops : list fop)
+      (* a family of Configs sharing Rand and Time: config 0 is new(Config); FClone i appends cfg_i.Clone() *).
 
 Section Run.
 Variable sh : tab1. Variable hm : tabh. Variable ks : tab2. Variable good : list bytes.
@@ -77,6 +82,52 @@ Fixpoint run (c : config) (now : Z) (rnd : bytes) (ops : list hop) : bool :=
       | _ => false
       end
   end.
+
+(* one hop on one config: None = observation differs from the model *)
+Definition hop1 (c : config) (now : Z) (rnd : bytes) (op : hop) : option (config * Z * bytes) :=
+  match op with
+  | HSetKeys l p =>
+      match set_session_ticket_keys sha c now l with
+      | Ok c' => if p then None else Some (c', now, rnd)
+      | Panic _ => if p then Some (c, now, rnd) else None
+      | Err _ => None
+      end
+  | HSetLegacy b => Some (mkCfg (c_disabled c) b (c_keys c) (c_auto c), now, rnd)
+  | HDisable b => Some (mkCfg b (c_stk c) (c_keys c) (c_auto c), now, rnd)
+  | HAdvance dt => Some (c, (now + dt)%Z, rnd)
+  | HSeal s obs =>
+      match cfg_encrypt hmac ctr sha c now rnd s with
+      | Ok (t, c', rnd') => if obytes_eqb (res_obs t) obs then Some (c', now, rnd') else None
+      | _ => None
+      end
+  | HOpen t obs =>
+      match cfg_decrypt hmac ctr sha xok c now rnd t with
+      | Ok (o, c', rnd') =>
+          if obytes_eqb (match o with Some s => res_obs (state_bytes s) | None => None end) obs
+             && match o, obs with Some _, None => false | _, _ => true end
+          then Some (c', now, rnd') else None
+      | _ => None
+      end
+  end.
+
+Fixpoint run_fam (st : list config) (now : Z) (rnd : bytes) (ops : list fop) : bool :=
+  match ops with
+  | [] => true
+  | FClone i :: r =>
+      match nth_error st (N.to_nat i) with
+      | Some c => run_fam (st ++ [c]) now rnd r
+      | None => false
+      end
+  | FOn i op :: r =>
+      match nth_error st (N.to_nat i) with
+      | Some c =>
+          match hop1 c now rnd op with
+          | Some (c', now', rnd') => run_fam (upd st (N.to_nat i) c') now' rnd' r
+          | None => false
+          end
+      | None => false
+      end
+  end.
 End Run.
 
 Definition check (c : case) : bool :=
@@ -91,4 +142,5 @@ Definition check (c : case) : bool :=
       let K := TicketKeyFromBytes (fun _ => sha) b in
       bytes_eqb (AesKey K) aes && bytes_eqb (HmacKey K) hm
   | CHist sh hm ks good rnd t0 ops => run sh hm ks good new_config t0 rnd ops
+  | CFam sh hm ks good rnd t0 ops => run_fam sh hm ks good [new_config] t0 rnd ops
   end.
